@@ -13,6 +13,13 @@ for root, dirs, files in os.walk(harness):
             src = os.path.join(root, f)
             rel = os.path.relpath(src, harness)
             rep[os.path.join(repo, "internal", "verifmc", rel)] = src
+# shims: files added to real packages of the repository (build tag `verif`)
+shims = os.path.join(os.path.dirname(harness), "shims")
+for root, dirs, files in os.walk(shims):
+    for f in files:
+        if f.endswith(".go"):
+            src = os.path.join(root, f)
+            rep[os.path.join(repo, os.path.relpath(src, shims))] = src
 for extra in sys.argv[4:]:
     with open(extra) as fh:
         rep.update(json.load(fh)["Replace"])
